@@ -26,7 +26,7 @@ IsEvent(e) == l <= Len(Trace) /\ Trace[l].ev = e /\ l' = l + 1
 InitVals == /\ U' = [i \in Ids |-> IF i \in Trees THEN RootChange(i) ELSE NoChange]
             /\ disk' = EmptyDisk /\ tx' = <<>> /\ mem' = ClosedMem /\ op' = NoOp
             /\ pre' = EmptyDisk /\ post' = EmptyDisk
-            /\ last' = [res |-> "none", retry |-> FALSE, kind |-> "none"]
+            /\ last' = [res |-> "none", retry |-> FALSE, kind |-> "none", snap |-> FALSE]
             /\ pend' = NoOp /\ faults' = 0 /\ prov' = <<>> /\ hist' = <<>>
 
 TraceInit == Init /\ l = 1
@@ -47,6 +47,7 @@ TrStart ==
               /\ CASE X.kind = "space"  -> StartSpace(FALSE)
                    [] X.kind = "create" -> StartCreate(X.t, FALSE)
                    [] X.kind = "local"  -> StartLocal(X.t, X.snap, FALSE)
+                   [] X.kind = "localv" -> StartLocalRejected(X.t, X.snap)
                    [] X.kind = "remote" -> StartRemote(X.t, Set(X.set), FALSE)
                    [] X.kind = "acl"    -> StartAcl(X.i, FALSE)
                    [] X.kind = "delete" -> StartDelete(X.t, FALSE)
